@@ -773,8 +773,11 @@ def gen_plan(rng, tier, i):
         if rng.random() < 0.25:
             # a second act for this step: the caller edits one of the LOADED arrays in place (a single-value
             # corruption, same objects) after the first evaluation and evaluates again
-            edit = {"kind": rng.choice(["unsort", "huge", "negative", "zero_duration", "freq_range", "pitch_zero", "tempo_negative"]),
-                    "side": rng.choice(["ref", "est"]), "pick": rng.random()}
+            kinds = {"beat": ["unsort", "huge"], "onset": ["unsort", "huge"], "alignment": ["unsort", "negative"],
+                     "segment": ["zero_duration", "negative"], "chord": ["zero_duration", "negative"],
+                     "transcription": ["zero_duration", "negative", "pitch_zero"], "transcription_velocity": ["zero_duration", "pitch_zero"],
+                     "multipitch": ["unsort", "freq_range"], "tempo": ["tempo_negative"], "key": ["key_mode_case", "key_mode_case", "key_unknown"]}
+            edit = {"kind": rng.choice(kinds.get(task, ["unsort"])), "side": rng.choice(["ref", "est"]), "pick": rng.random()}
         steps.append({"task": task, "files": files, "access": rng.choice(["path", "path", "stringio"]), "fault": fault, "mode": mode,
                       "edit": edit})
     return {"prop": PROP, "cfg": cfg, "steps": steps}
@@ -826,6 +829,16 @@ def apply_edit(task, d, edit):
                 k = ks[idx(len(ks))]
                 fr[k][0] = 10.0
                 return "set a %s frequency to 10 Hz in place" % side
+        return None
+    if task == "key":
+        # strings cannot be edited in place: the second act scores a near-variant of the key just scored
+        parts = d[side].split(" ", 1)
+        if len(parts) == 2 and kind == "key_mode_case":
+            d[side] = parts[0] + " " + (parts[1].capitalize() if pick < 0.5 else parts[1].upper())
+            return "scored the %s key again with the mode spelled %r" % (side, d[side].split(" ", 1)[1])
+        if len(parts) == 2 and kind == "key_unknown":
+            d[side] = "H " + parts[1]
+            return "scored the %s key again with the tonic 'H'" % side
         return None
     if task == "tempo":
         if kind == "tempo_negative":
